@@ -134,7 +134,19 @@ func buildWithBuilders(w *WFlag) ldmodel.FeatureFlag {
 		}
 		b.MigrationFlagParameters(mb.Build())
 	}
-	return b.Build()
+	flag := b.Build()
+	// AddTarget cannot give a legacy target list a context kind; the data model can
+	patched := false
+	for i, t := range w.Targets {
+		if t.CK != "" && i < len(flag.Targets) {
+			flag.Targets[i].ContextKind = ldcontext.Kind(t.CK)
+			patched = true
+		}
+	}
+	if patched {
+		ldmodel.PreprocessFlag(&flag)
+	}
+	return flag
 }
 
 // ---- construction through the helper functions of ldbuilders, wherever the wire value is exactly
